@@ -5,13 +5,17 @@
  *   - fromBase32 of it returns the same time and imprint;
  *   - every single-symbol substitution by a different alphabet symbol and every adjacent transposition of different
  *     symbols is refused, unless the decoded bytes are identical (only padding bits changed) - then same data;
- *   - truncated / extended strings and strings with an unknown algorithm byte (with a correct CRC) are refused. */
+ *   - truncated / extended strings and strings with an unknown algorithm byte (with a correct CRC) are refused;
+ *   - NULL context / string / output / publication data: KSI_INVALID_ARGUMENT and the outputs are not written
+ *     (job C17.pubstr.nullargs; each call in a child process, a missing check is a crash). */
 #include "replay/replay_common.h"
 #include "spec/base32.h"
 #include "spec/crc32.h"
 #include "spec/hashalg.h"
 #include <ksi/publicationsfile.h>
 #include <ksi/hash.h>
+#include <unistd.h>
+#include <sys/wait.h>
 
 static KSI_CTX *ctx;
 static int bad;
@@ -100,6 +104,35 @@ static void check(int algo, unsigned long long t, int pat) {
 	}
 }
 
+/* NULL arguments (C17.pubstr.nullargs): child exit 0 = KSI_INVALID_ARGUMENT and output untouched, 1 = other status / output written */
+static void nullargs(void) {
+	static const char *name[] = { "KSI_PublicationData_fromBase32(NULL ctx, \"AAAAAA\", &out)", "KSI_PublicationData_fromBase32(ctx, NULL, &out)",
+		"KSI_PublicationData_fromBase32(ctx, \"AAAAAA\", NULL)", "KSI_PublicationData_toBase32(NULL, &str)", "KSI_PublicationData_toBase32(pd, NULL)" };
+	int i;
+	for (i = 0; i < 5; i++) {
+		pid_t pid; int status = 0;
+		fflush(stdout);
+		pid = fork();
+		if (pid == 0) {
+			KSI_PublicationData *out = (KSI_PublicationData *)0x1, *pd = NULL; char *str = (char *)0x1; int res = -1;
+			switch (i) {
+			case 0: res = KSI_PublicationData_fromBase32(NULL, "AAAAAA", &out); break;
+			case 1: res = KSI_PublicationData_fromBase32(ctx, NULL, &out); break;
+			case 2: res = KSI_PublicationData_fromBase32(ctx, "AAAAAA", NULL); break;
+			case 3: res = KSI_PublicationData_toBase32(NULL, &str); break;
+			case 4: KSI_PublicationData_new(ctx, &pd); res = KSI_PublicationData_toBase32(pd, NULL); break;
+			}
+			_exit((res == KSI_INVALID_ARGUMENT && out == (KSI_PublicationData *)0x1 && str == (char *)0x1) ? 0 : 1);
+		}
+		if (pid < 0) continue;
+		waitpid(pid, &status, 0);
+		if (!(WIFEXITED(status) && WEXITSTATUS(status) == 0)) {
+			bad++; printf("%s: %s, expected KSI_INVALID_ARGUMENT with the output untouched\n", name[i],
+				WIFSIGNALED(status) ? "killed by a signal" : (WEXITSTATUS(status) == 1 ? "another status or the output was written" : "died (sanitizer / abort)"));
+		}
+	}
+}
+
 int main(int argc, char **argv) {
 	static const unsigned long long times[] = { 0, 1, 1400000000ULL, 0x0102030405060708ULL, 0xffffffffffffffffULL };
 	int a, pat; size_t k; long long halgo;
@@ -110,6 +143,7 @@ int main(int argc, char **argv) {
 		check(a == SPEC_HASHALG_COUNT ? (int)(halgo & 0xff) : a, times[k], pat);
 	{ unsigned long long t; unsigned char imp[80]; size_t il;
 	  if (real_decode("", &t, imp, &il) == KSI_OK || real_decode("AAAAAA-AAAAAA-AAAAAA-AA", &t, imp, &il) == KSI_OK || real_decode("A", &t, imp, &il) == KSI_OK) { bad++; printf("a string shorter than 13 bytes accepted\n"); } }
+	nullargs();
 	if (bad) RP_FAIL("publication string handling disagrees with the reference (%d cases)", bad);
 	printf("no disagreement in the neighbourhood\n");
 	return 0;
